@@ -306,6 +306,17 @@ def oracle_export(levels, D, query):
         r2 = regions.Region.load(mf)
         if r2.maxdepth != r.maxdepth or set(r2.get_demoted()) != want_leaves:
             return True, 'mim-roundtrip', 'save/load changed the region'
+        # the file, not an earlier load of it, is what a load returns: edit the loaded object in place, load again
+        spare = sorted(set(range(12 * 4 ** D)) - want_leaves)[:1]
+        if spare:
+            r2.add_pixels(spare, D)
+        if want_leaves:
+            other = regions.Region(maxdepth=D)
+            other.add_pixels(sorted(want_leaves)[:1], D)
+            r2.without(other)
+        r3 = regions.Region.load(mf)
+        if r3.maxdepth != r.maxdepth or set(int(p) for p in r3.get_demoted()) != want_leaves:
+            return True, 'mim-load-after-edit', 'a second load of the same .mim file returned %d deepest pixels, the file holds %d (an earlier load had been edited in place)' % (len(r3.get_demoted()), len(want_leaves))
         return False, None, None
     except Exception as e:
         return True, 'raises-%s' % type(e).__name__, repr(e)
